@@ -8,7 +8,7 @@ stdin: the journal of `harness/c12_interval.cc`, one event per line
     <id> <ty> <op> <I> <J> <R> <ok>
 
 * `ty`  : `Q` (`Rational_Interval`, mpq, policy rational), `Z` (`Interval<mpz_class, Z_Box_Interval_Info>`),
-          `D` (`Interval<double, Floating_Point_Box_Interval_Info>`)
+          `D` (`Interval<double, Floating_Point_Box_Interval_Info>`), `F` (the same with `float`)
 * `op`  : `neg add sub mul div join meet diff join2 meet2 contains scontains disjoint eq
           rex:<rel> run:<rel> wrap:<w>:<u|s> assign cc76`
 * `I J` : operands as the harness built them, `R` the result read from the real library:
@@ -98,6 +98,8 @@ def tyOf (s : String) : Option Ty :=
   if s == "Q" then some ⟨"Q", Policy.rational, Rounding.id, true, false⟩
   else if s == "Z" then some ⟨"Z", Policy.integer, Rounding.int, true, true⟩
   else if s == "D" then some ⟨"D", Policy.floating, Rounding.double, false, false⟩
+  else if s == "F" then some ⟨"F", Policy.floating, Rounding.float 24 (-126) 127, false, false⟩
+  else if s == "L" then some ⟨"L", Policy.floating, Rounding.float 64 (-16382) 16383, false, false⟩
   else none
 
 /-- how the harness prints an interval: emptiness, then bounds with the *reported* openness -/
@@ -204,7 +206,7 @@ def d12Tags (x : Iv) (w : Nat) : List String :=
   | _, _ => []
 
 def checkSetResult (id : String) (t : Ty) (tags : String) (realSI : Spec.SI) (spec : Spec.SI)
-    (exactOp : Bool) : List String :=
+    (exactOp : Bool) (noRounding : Bool := false) : List String :=
   let specT := if t.integer then Spec.toInteger spec else spec
   let e1 :=
     if realSI.isNone && spec.isSome then
@@ -214,8 +216,9 @@ def checkSetResult (id : String) (t : Ty) (tags : String) (realSI : Spec.SI) (sp
     if !e1.isEmpty then []
     else if !Spec.subset spec realSI then
       [mism id "exact" tags "result does not contain the hull of the exact image"]
-    else if t.exact && exactOp && !Spec.seteq specT realSI then
-      [mism id "exact" tags ("exact boundary type, result is not the least interval")]
+    else if (t.exact || noRounding) && exactOp && !Spec.seteq specT realSI then
+      [mism id "exact" tags (if t.exact then "exact boundary type, result is not the least interval"
+        else "operation without rounding, result is not the least interval")]
     else []
   e1 ++ e2
 
@@ -237,12 +240,14 @@ def process (d3 d12 : Bool) (line : String) : List String :=
       let oklT (tg : String) := if oks == "0" then [mism id "okinv" tg "OK() of the result is false"] else []
       let okl := oklT ""
       -- model result
+      -- negation, copies, joins, meets, differences and refinements involve no rounding: exact for every type
+      let noRounding := opn != "add" && opn != "sub" && opn != "mul" && opn != "div"
       let setOp (modelRes : Iv) (spec : Spec.SI) (exactOp : Bool) (tags : List String)
           (skipModel : Bool) (encl : List String) : List String :=
         let tg := ",".intercalate tags
         let ms := showIv t modelRes
         let m := if skipModel || ms == rs then [] else [mism id "model" tg ("model=" ++ ms ++ " real=" ++ rs)]
-        m ++ encl ++ checkSetResult id t tg realSI spec exactOp ++ oklT tg
+        m ++ encl ++ checkSetResult id t tg realSI spec exactOp noRounding ++ oklT tg
       let binSamples (f : Rat → Rat → Option Rat) (tags : List String) : List String :=
         let tg := ",".intercalate tags
         let bad := (samples sI).flatMap fun a => (samples sJ).filterMap fun b =>
